@@ -59,6 +59,10 @@ class _Reviewed(dict):
 
 
 _RAW = {
+    "R7e|fixtures::analyzer::<impl fixtures::FixtureDatabase>::get_line_from_offset|its result - 1":
+        "contract of the offset-to-line converter: it returns binary_search's Ok(i) + 1 or Err(i) over the line index, whose first "
+        "entry is offset 0, so Err(0) would need an offset below 0: the result is a 1-based line >= 1 wherever it is used "
+        "(same argument as the entry for get_char_position_from_offset, which receives such a line as a parameter)",
     "R4h|fixtures::FixtureDatabase::evict_cache_if_needed|pick in hash order":
         "`file_cache.iter().take(n)` picks the n entries to evict when the text cache is over its capacity: any n entries do; "
         "an evicted text is re-read from disk on demand, no answer depends on which ones went",
